@@ -93,6 +93,12 @@ func c09Receivers(c *Ctx) []c09Recv {
 		}},
 		c09Recv{"Condition/error-on-record", func() any { return stackage.Cond("kw", stackage.Eq, "val").SetErr(errCat).SetReadOnly(true) }},
 		c09Recv{"Condition/typed-nil-error-on-record", func() any { return stackage.Cond("kw", stackage.Eq, "val").SetErr((*ptrErr)(nil)).SetReadOnly(true) }},
+		// settings that were cleared and then set before the flag went up (the niladic reset form)
+		c09Recv{"AND/content1/encap-after-reset", func() any { return stackage.And().SetEncap().SetEncap(`"`).Push("a", nil, "b").SetReadOnly(true) }},
+		c09Recv{"LIST/content2/encap-after-reset", func() any {
+			return stackage.List().SetEncap().SetEncap("'").Push(stackage.Or().SetEncap().SetEncap("<").Push("n1"), stackage.Cond("ck", stackage.Eq, "v").SetEncap().SetEncap([]string{"<", ">"}), "leaf").SetReadOnly(true)
+		}},
+		c09Recv{"Condition/encap-after-reset", func() any { return stackage.Cond("kw", stackage.Eq, "val").SetEncap().SetEncap([]string{"<", ">"}).SetReadOnly(true) }},
 		// expressions held under a type of the caller's own, or through pointers
 		c09Recv{"Condition/alias-expression", func() any {
 			return stackage.Cond("kw", stackage.Eq, StackAlias(stackage.And().Push("x", "y"))).SetReadOnly(true)
@@ -331,15 +337,23 @@ func c09Sibling(c *Ctx, rv c09Recv) int {
 		lgState := func() string {
 			return fmt.Sprintf("writer-is-the-user's-buffer=%v prefix=%q flags=%d", lg.Writer() == io.Writer(sink), lg.Prefix(), lg.Flags())
 		}
+		var before0 string
 		switch tv := x.(type) {
 		case stackage.Stack:
 			tv.SetReadOnly(false).SetLogger(lg).SetReadOnly(true)
-			y = newStackKind(tv.Kind()).Push("own").SetAuxiliary(tv.Auxiliary()).SetLogger(lg)
+			before0 = c09Key(x, 0, false)
+			// (the sibling is configured the way instances often are: settings cleared, then set)
+			y = newStackKind(tv.Kind()).SetEncap().SetEncap("|").SetSymbol().SetSymbol("sib").Push("own").SetAuxiliary(tv.Auxiliary()).SetLogger(lg)
 			auxBefore = fmt.Sprint(map[string]any(tv.Auxiliary()))
 		case stackage.Condition:
 			tv.SetReadOnly(false).SetLogger(lg).SetReadOnly(true)
-			y = stackage.Cond("own", stackage.Eq, "v").SetAuxiliary(tv.Auxiliary()).SetLogger(lg)
+			before0 = c09Key(x, 0, false)
+			y = stackage.Cond("own", stackage.Eq, "v").SetEncap().SetEncap([]string{"{", "}"}).SetAuxiliary(tv.Auxiliary()).SetLogger(lg)
 			auxBefore = fmt.Sprint(map[string]any(tv.Auxiliary()))
+		}
+		if now := c09Key(x, 0, false); now != before0 {
+			c.Violation("changed-through-sibling:construction", fmt.Sprintf("making and configuring ANOTHER instance (settings cleared, then set; the same Auxiliary map and logger) changed read-only %s:\n before %s\n after  %s", rv.Name, before0, now), c09Case{rv.Name + " (sibling)", nil}, len(rv.Name))
+			return n
 		}
 		lgBefore := lgState()
 		pv := reflect.New(reflect.TypeOf(y))
@@ -361,6 +375,55 @@ func c09Sibling(c *Ctx, rv c09Recv) int {
 		}
 		if after := c09Key(x, 0, false); after != before || auxAfter != auxBefore || lgState() != lgBefore {
 			c.Violation("changed-through-sibling:"+cl.Method, fmt.Sprintf("%s changed the read-only instance (auxiliary content %s -> %s; its logger %s -> %s):\n before %s\n after  %s", desc, auxBefore, auxAfter, lgBefore, lgState(), before, after), cs, len(desc))
+		}
+	}
+	return n
+}
+
+// c09HeldGuise: a read-only Condition (or Stack) is handed the very Stack it already holds, in another guise
+// (native where it holds an alias, an alias where it holds a native one, a pointer ...). "It is the same
+// instance" is no reason to store the new handle: the stored value, dynamic type included, stays. The same
+// through Reveal on a parent, which hands a Condition's Stack back to it.
+func c09HeldGuise(c *Ctx) int {
+	n := 0
+	guises := func(st stackage.Stack) map[string]any {
+		al, als := StackAlias(st), StackAliasS(st)
+		return map[string]any{"native": st, "alias": al, "alias with String": als, "pointer": &st, "pointer to alias": &al}
+	}
+	for heldAs := range guises(stackage.Stack{}) {
+		for offeredAs := range guises(stackage.Stack{}) {
+			st := stackage.Or().Push("x", stackage.And().Push("single"))
+			held, offered := guises(st)[heldAs], guises(st)[offeredAs]
+			// as a Condition's expression
+			cd := stackage.Cond("kw", stackage.Eq, held).SetReadOnly(true)
+			parent := stackage.And().Push(cd, stackage.Or().Push(stackage.List().Push("only-child")))
+			before := c09Key(cd, 0, false)
+			n++
+			c.Transitions.Add(1)
+			desc := fmt.Sprintf("a read-only Condition holding a Stack as %s", heldAs)
+			if p := noPanic(func() { cd.SetExpression(offered) }); p != "" {
+				c.Violation("held-guise:panic", fmt.Sprintf("%s: SetExpression(the same Stack as %s) panicked: %s", desc, offeredAs, p), nil, 0)
+				continue
+			}
+			if after := c09Key(cd, 0, false); after != before {
+				c.Violation("held-guise:SetExpression", fmt.Sprintf("%s: SetExpression(the same Stack as %s) changed the read-only instance:\n before %s\n after  %s", desc, offeredAs, before, after), nil, 0)
+				continue
+			}
+			if p := noPanic(func() { parent.Reveal(); parent.Defrag(); _ = parent.String() }); p != "" {
+				c.Violation("held-guise:panic", desc+": Reveal / Defrag / String on its parent panicked: "+p, nil, 0)
+				continue
+			}
+			if after := c09Key(cd, 0, false); after != before {
+				c.Violation("held-guise:Reveal", fmt.Sprintf("%s: Reveal on its parent changed the read-only instance:\n before %s\n after  %s", desc, before, after), nil, 0)
+			}
+			// as an element of a read-only Stack
+			ro := stackage.List().Push("a", held, "b").SetReadOnly(true)
+			rb := c09Key(ro, 0, false)
+			if p := noPanic(func() { ro.Replace(offered, 1); ro.Insert(offered, 1); ro.Push(offered) }); p != "" {
+				c.Violation("held-guise:panic", fmt.Sprintf("a read-only Stack holding a Stack as %s: Replace / Insert / Push of the same Stack as %s panicked: %s", heldAs, offeredAs, p), nil, 0)
+			} else if after := c09Key(ro, 0, false); after != rb {
+				c.Violation("held-guise:element", fmt.Sprintf("a read-only Stack holding a Stack as %s: Replace / Insert / Push of the same Stack as %s changed it:\n before %s\n after  %s", heldAs, offeredAs, rb, after), nil, 0)
+			}
 		}
 	}
 	return n
@@ -656,6 +719,7 @@ func init() {
 		c.Bound["calls_on_writable_siblings_sharing_auxiliary_and_logger"] = nSib
 		c.Bound["calls_through_a_handle_re_initialised_by_Init"] = nInit
 		c.Bound["package_function_calls_beside_read_only_instances"] = c09PackageFuncs(c)
+		c.Bound["held_stack_offered_again_in_another_guise"] = c09HeldGuise(c)
 		c.States.Store(int64(len(jobs)))
 		c.Traces.Store(int64(len(jobs)))
 		c.Evals.Store(c.Transitions.Load())
